@@ -488,7 +488,7 @@ class TreeGen:
                 "c": st.just("Uni"),
                 "o": self.origin(),
                 "k": st.fixed_dictionaries(
-                    {"one": single, "opt": opt, "un": st.one_of(st.none(), self.leafab(("LeafA", "LeafB"))),
+                    {"one": single, "opt": opt, "un": st.one_of(st.none(), self.leafab(("LeafA", "LeafB")), self.leaf_of("LeafB")),
                      "ka": opt, "kb": opt}
                 ),
             }
